@@ -596,3 +596,78 @@ def walk_tuple(t, fn, seen):
                 walk_atom(x, fn, seen)
             else:
                 walk_tuple(x, fn, seen)
+
+
+def mk_memcmp(p, q, n):
+    """result of memcmp(p, q, n) as a pure, sign-valued atom; canonical operand order (memcmp(q,p,n) has the
+    opposite sign, and only the sign of the result is ever used)"""
+    if p == q:
+        return ZERO
+    if repr(p) <= repr(q):
+        return atom(("purecall", "memcmp", p, q, n))
+    return -atom(("purecall", "memcmp", q, p, n))
+
+
+def mk_pure_eq(p, q):
+    """value-type operator==(p, q): deterministic and symmetric in its operands (premise of the properties)"""
+    if repr(p) > repr(q):
+        p, q = q, p
+    return atom(("purecall", "EQ", p, q))
+
+
+def rebuild_purecall(a, fl):
+    """purecall atom with its Lin operands mapped through fl, re-canonicalised -> Lin"""
+    args = [fl(x) if isinstance(x, Lin) else x for x in a[2:]]
+    if a[1] == "memcmp":
+        return mk_memcmp(args[0], args[1], args[2])
+    if a[1] == "EQ":
+        return mk_pure_eq(args[0], args[1])
+    return atom(("purecall", a[1]) + tuple(args))
+
+
+BINOPS = ("udiv", "sdiv", "urem", "srem", "shl", "lshr", "ashr", "or", "xor", "umax", "umin", "smax", "smin")
+
+
+def rebuild_generic(a, fl):
+    """atom of a kind without a dedicated constructor, operands mapped through fl; binary operators are
+    re-folded (ashr(4*n, 2) -> n after a substitution)"""
+    k = a[0]
+    if k in BINOPS and len(a) == 3 and isinstance(a[1], Lin) and isinstance(a[2], Lin):
+        try:
+            return mk_bin(k, fl(a[1]), fl(a[2]))
+        except Exception:
+            pass
+    out = [k]
+    for x in a[1:]:
+        out.append(fl(x) if isinstance(x, Lin) else x)
+    return atom(tuple(out))
+
+
+def c_fcmp(pred, a, b):
+    """floating-point comparison in a canonical form: only foeq (operands ordered), folt, fole, fone, fueq, ford,
+    funo occur; the others are negations / operand swaps (une == !oeq, ugt(a,b) == !ole(a,b), ...)"""
+    p = pred[1:] if pred.startswith("f") else pred
+    if p == "true":
+        return TRUE
+    if p == "false":
+        return FALSE
+    sym = ("oeq", "one", "ueq", "ord", "uno")
+    if p == "ogt":
+        p, a, b = "olt", b, a
+    elif p == "oge":
+        p, a, b = "ole", b, a
+    neg = False
+    if p == "une":
+        p, neg = "oeq", True
+    elif p == "uge":   # !(a < b)
+        p, neg = "olt", True
+    elif p == "ugt":   # !(a <= b)
+        p, neg = "ole", True
+    elif p == "ule":   # !(a > b) == !(b < a)
+        p, a, b, neg = "olt", b, a, True
+    elif p == "ult":   # !(a >= b) == !(b <= a)
+        p, a, b, neg = "ole", b, a, True
+    if p in sym and repr(a) > repr(b):
+        a, b = b, a
+    c = ("cmp", "f" + p, a, b)
+    return c_not(c) if neg else c
